@@ -78,7 +78,7 @@ def add_to(res, tier, clauses, pid):
 
 
 def run(res, tier):
-    listener_pipeline(res, tier, ("L1", "L2", "L3", "L4", "L5", "L6", "L7", "L8", "L9", "L10", "L11"), "C13")
+    listener_pipeline(res, tier, ("L1", "L2", "L3", "L4", "L5", "L6", "L7", "L8", "L9", "L10", "L11", "L12"), "C13")
 
 
 def replay(res, path):
